@@ -35,3 +35,31 @@ def setup():
 
 def repo_path(*parts):
     return os.path.join(REPO, *parts)
+
+
+_LOGGING = {"on": False}
+
+
+def logging_as_shipped(level="DEBUG"):
+    """the manager's entry point configures logging from middleware/logging.cfg before
+    anything else: root logger at NOTSET, one stream handler at DEBUG.  Every record is
+    then formatted - and every `isEnabledFor(DEBUG)` branch taken - as in production;
+    the text goes to a sink.  level="INFO" is an operator's quieter configuration."""
+    import io
+
+    class Sink(io.StringIO):
+        def write(self, s):
+            return len(s)
+    lvl = getattr(logging, level)
+    logging.disable(logging.NOTSET)
+    logging.raiseExceptions = False
+    root = logging.getLogger()
+    if _LOGGING["on"] != level:
+        for h in list(root.handlers):
+            root.removeHandler(h)
+        h = logging.StreamHandler(Sink())
+        h.setLevel(lvl)
+        h.setFormatter(logging.Formatter("[%(levelname)s:%(name)s] %(message)s"))
+        root.addHandler(h)
+        root.setLevel(logging.NOTSET if level == "DEBUG" else lvl)
+        _LOGGING["on"] = level
